@@ -1,9 +1,10 @@
 ------------------------------ MODULE Trace_PTM ------------------------------
+(* TLC as judge of recorded CanonicalizeModifications runs: one state per record of the batch, verdict = PTM!JudgeRun. *)
 EXTENDS PTM, Json, IOUtils
 Batch == JsonDeserialize(IOEnv.TRACE_FILE)
-VARIABLES tid, verdict
-vars == <<tid, verdict>>
-Init == tid \in 1..Len(Batch) /\ verdict = "pending"
-Eval == verdict = "pending" /\ verdict' = JudgeRun(Batch[tid]) /\ UNCHANGED tid
+VARIABLES tid, verdict, note
+vars == <<tid, verdict, note>>
+Init == tid \in 1..Len(Batch) /\ verdict = "pending" /\ note = ""
+Eval == verdict = "pending" /\ verdict' = JudgeRun(Batch[tid]) /\ note' = Note(Batch[tid]) /\ UNCHANGED tid
 Spec == Init /\ [][Eval]_vars
 =============================================================================
